@@ -1238,6 +1238,83 @@ func RandProgram(rng *rand.Rand, id int, rows int) Case { return RandProgramFor(
 
 // RandProgramFor generates one random program; glslSafe keeps it inside the operations GLSL defines.
 func RandProgramFor(rng *rand.Rand, id int, rows int, glslSafe bool) Case {
+	// keep the dynamic cost bounded (nested loops calling helpers that loop ...): the specification evaluates every
+	// program with TLC, a few 10^5 node evaluations per second
+	for try := 0; ; try++ {
+		c := randProgramOnce(rng, id, rows, glslSafe)
+		if dynCost(c.Prog) <= 4000 || try > 30 {
+			return c
+		}
+	}
+}
+
+// dynCost is a static upper estimate of the number of statements / calls one run of the entry point executes
+// (every loop counted with 4 iterations, both branches of an if, the most expensive switch case).
+// DynCost exports dynCost for development tools.
+func DynCost(p wg.N) int { return dynCost(p) }
+
+func dynCost(p wg.N) int {
+	fnCost := map[string]int{}
+	var cost func(x any) int
+	cost = func(x any) int {
+		switch v := x.(type) {
+		case []wg.N:
+			t := 0
+			for _, e := range v {
+				t += cost(e)
+			}
+			return t
+		case []any:
+			t := 0
+			for _, e := range v {
+				t += cost(e)
+			}
+			return t
+		case wg.N:
+			switch wg.K(v) {
+			case "loop":
+				return 4 * (cost(v["body"]) + cost(v["cont"]) + cost(v["brkif"]) + 1)
+			case "for":
+				return cost(v["init"]) + 4*(cost(v["c"])+cost(v["upd"])+cost(v["body"])+1)
+			case "while":
+				return 4 * (cost(v["c"]) + cost(v["body"]) + 1)
+			case "switch":
+				m := 0
+				for _, c := range wg.L(v, "cases") {
+					if k := cost(c["body"]); k > m {
+						m = k
+					}
+				}
+				return 1 + cost(v["e"]) + m
+			case "call":
+				return 1 + cost(v["args"]) + fnCost[wg.S(v, "f")]
+			}
+			t := 0
+			if _, isStmt := v["k"]; isStmt {
+				t = 1
+			}
+			for key, f := range v {
+				if key == "t" {
+					continue
+				}
+				t += cost(f)
+			}
+			return t
+		}
+		return 0
+	}
+	total := 0
+	for _, f := range wg.L(p, "fns") {
+		c := cost(f["body"])
+		fnCost[wg.S(f, "name")] = c
+		if wg.I(f, "entry") == 1 {
+			total = c
+		}
+	}
+	return total
+}
+
+func randProgramOnce(rng *rand.Rand, id int, rows int, glslSafe bool) Case {
 	g := &rGen{rng: rng, glslSafe: glslSafe}
 	// private globals and a struct type
 	if g.pct(70) {
